@@ -155,7 +155,7 @@ static opus_int verif_wrap_silk_Decode(void *decState, silk_DecControlStruct *dc
    ret = silk_Decode(decState, dc, lostFlag, newPacketFlag, rd, samplesOut, nSamplesOut, arch);
    if (G.trace_plc && lostFlag == 1 && valid) plc_trace_post(decState, dc);
    tell = lostFlag == 1 ? 0 : ec_tell(rd);
-   if (lostFlag != 1 && newPacketFlag) {
+   if (lostFlag != 1 && newPacketFlag && G.lbrr_seen < 0) {   /* first frame of the packet only: that is what opus_packet_has_lbrr inspects */
       silk_decoder_state *cs = (silk_decoder_state *)decState;   /* channel_state[] is the first member of silk_decoder (dec_API.c:44) */
       G.lbrr_seen = cs[0].LBRR_flag || (nci == 2 && cs[1].LBRR_flag);
    }
@@ -313,7 +313,7 @@ static void plc_trace_post(void *decState, silk_DecControlStruct *dc)
       if (G.quiet) continue;
       printf("I decskel plcgain %d %d %d %d,%d,%d,%d,%d %d %d %d\n", q->lossCnt, q->voiced, q->nb_subfr,
              q->B[0], q->B[1], q->B[2], q->B[3], q->B[4], q->rs, q->plt, q->inv);
-      printf("O %d,%d,%d,%d,%d %d\n", s->sPLC.LTPCoef_Q14[0], s->sPLC.LTPCoef_Q14[1], s->sPLC.LTPCoef_Q14[2],
+      printf("O g=%d,%d,%d,%d,%d %d\n", s->sPLC.LTPCoef_Q14[0], s->sPLC.LTPCoef_Q14[1], s->sPLC.LTPCoef_Q14[2],
              s->sPLC.LTPCoef_Q14[3], s->sPLC.LTPCoef_Q14[4], s->sPLC.randScale_Q14);
    }
    (void)dc;
@@ -777,7 +777,7 @@ int main(int argc, char **argv)
    vrng r; long i, n;
    install();
    if (argc >= 4 && (!strcmp(argv[1], "rand") || !strcmp(argv[1], "ms"))) {
-      r.s = strtoull(argv[2], 0, 10) * 0x9E3779B97F4A7C15ULL + (argv[1][0] == 'm'); n = atol(argv[3]);
+      r.s = strtoull(argv[2], 0, 10) * 0xD1342543DE82EF95ULL + 0x632BE59BD9B4E019ULL + (argv[1][0] == 'm'); r.s ^= vnext(&r) >> 7;   /* not a shift of another seed's Weyl sequence */ n = atol(argv[3]);
       G.quiet = argc >= 5 && !strcmp(argv[4], "quiet");
       for (i = 0; i < n; i++) { if (argv[1][0] == 'r') run_session(&r, 60); else run_ms_session(&r, 30); }
       printf("# %s seed=%s sessions=%ld calls=%ld witnesses=%ld\n", argv[1], argv[2], n, G.n_calls, G.n_w);
